@@ -217,6 +217,22 @@ class C12(F.Spec):
                     authorised_recal = cmd == 8000 and auth != 0
                 if ent and not authorised_enter:
                     fs.append(F.Finding("cfgmode-without-authorisation", "configuration mode started by '%s'" % op[:60]))
+                if t[0] == "msg" and t[1] == "460" and len(t[2]) >= 42 and any(x == "GETDATA 460 1" for x in g) and not entered \
+                        and not (authorised_enter or authorised_recal) and (cmd == 9000 or (
+                            cmd == 8000 and (dt == 0 or (dt == 1000 and ds == 8)) and
+                            ("%d:1" % ch) in rs_list(case.meta.get("board") or next((o.split()[1] for o in case.ops if o.startswith("board ")), "relay2")))):
+                    # (a request the device would carry out if it were authorised: enter-configuration, or a recalibrate that names
+                    # one of its recalibratable shutters in one of the two accepted forms)
+                    # "answered 'unauthorised'": the CALCFG result code for it (SUPLA_CALCFG_RESULT_UNAUTHORIZED = 104)
+                    res = None
+                    for x in g:
+                        if x.startswith("SENT 0 "):
+                            for call, body in frames_in(x.split()[2]):
+                                if call == 470 and len(body) >= 16:
+                                    res = struct.unpack("<i", body[12:16])[0]
+                    if res is not None and res != 104:
+                        fs.append(F.Finding("unauthorised-request-not-answered-unauthorised", "'%s' is answered with result %d, not with "
+                                            "'unauthorised' (104)" % (op[:60], res)))
                 if fact:
                     fs.append(F.Finding("settings-erased-by-server-message", "flash/factory reset after '%s'" % op[:60]))
                 if t[0] == "msg" and t[1] == "460" and calib and not authorised_recal and not entered:
